@@ -36,6 +36,9 @@ func main() {
 	repo := flag.String("repo", "/repo", "repository root")
 	verif := flag.String("verif", "/verif", "verif root (evidence, known findings)")
 	list := flag.Bool("list", false, "list functions")
+	genSymbols := flag.Bool("gen-symbols", false, "write spec/symbols.json (function fingerprints and type shapes of the reviewed tree) and exit")
+	genBase := flag.Bool("gen-bounds-baseline", false, "write spec/bounds_baseline.json from the reviewed tree and exit")
+	bdebug := flag.String("bdebug", "", "debug: dump the bounds prover's goals and facts for the named function and exit")
 	registered := flag.Bool("registered", false, "print the ids of the properties that have rules and exit")
 	flag.Parse()
 	if *registered {
@@ -66,7 +69,7 @@ func main() {
 		}
 	}
 	abs, _ := filepath.Abs(*repo)
-	c, err := load(abs, *tier, nil)
+	c, err := load(abs, *tier, *verif, nil)
 	if err != nil {
 		// a tree that does not load or type-check cannot be decided: fail every requested property
 		for _, id := range ids {
@@ -78,6 +81,25 @@ func main() {
 		os.Exit(1)
 	}
 	c.VerifDir = *verif
+	if *genSymbols {
+		resetAliases()
+		if err := c.writeSymbols(filepath.Join(*verif, "spec", "symbols.json")); err != nil {
+			fmt.Println("gen-symbols:", err)
+			os.Exit(2)
+		}
+		return
+	}
+	if *genBase {
+		if err := c.genBoundsBaseline(); err != nil {
+			fmt.Println("gen-bounds-baseline:", err)
+			os.Exit(2)
+		}
+		return
+	}
+	if *bdebug != "" {
+		c.boundsDebug(*bdebug)
+		return
+	}
 	if *list {
 		for _, fn := range c.Fns {
 			fmt.Println(short(fn))
@@ -158,6 +180,7 @@ func main() {
 }
 
 func runRule(c *Ctx, r *Report, rule ruleFn) {
+	c.activate()
 	defer func() {
 		if e := recover(); e != nil {
 			st := string(debug.Stack())
@@ -175,6 +198,10 @@ func runRule(c *Ctx, r *Report, rule ruleFn) {
 
 // sanity re-verifies the loader assumptions on every run.
 func (c *Ctx) sanity(r *Report) {
+	c.activate()
+	for _, a := range c.aReport {
+		r.Note("renamed", a, "", "recognised as a pure rename by structural fingerprint (spec/symbols.json): the rules address it by its reviewed name")
+	}
 	for _, p := range c.Pkgs {
 		for imp := range p.Imports {
 			if imp == "unsafe" || imp == "reflect" || imp == "C" {
@@ -202,12 +229,14 @@ func variantCtx(repo, tier, verif string, env []string) (*Ctx, error) {
 		return c, nil
 	}
 	// the bounds engine keeps per-program state: reset it for the variant program
+	retCache = map[*ssa.Function]*retSummary{}
+	retBusy = map[*ssa.Function]bool{}
 	pc = &progCtx{
 		ans: map[*ssa.Function]*fnAn{}, callers: map[*ssa.Function][]ssa.CallInstruction{},
-		addrTaken: map[*ssa.Function]bool{}, succ: map[*ssa.Function][]lin{}, succBusy: map[*ssa.Function]bool{},
+		addrTaken: map[*ssa.Function]bool{}, succ: map[*ssa.Function][]lin{}, succBusy: map[*ssa.Function]bool{}, dynMethods: map[string]bool{},
 		nonneg: map[*ssa.Function]map[int]int{},
 	}
-	c, err := load(repo, tier, env)
+	c, err := load(repo, tier, verif, env)
 	if err != nil {
 		return nil, err
 	}
